@@ -754,6 +754,11 @@ Matrix Matrix::Inverse() const
 		// Change diagonal entries to 1
 		for(unsigned int i = 0; i < N; i++)
 		{
+			if(A[i][i] == 0)   // A diagonal entry can still cancel to zero during the elimination of a later column.
+			{
+				std::cerr << "Error in libphysica::Matrix::Inverse(): Matrix is not invertible (a diagonal element vanishes in the elimination)." << std::endl;
+				std::exit(EXIT_FAILURE);
+			}
 			for(unsigned int j = N; j < 2 * N; j++)
 			{
 				A[i][j] = A[i][j] / A[i][i];
